@@ -23,7 +23,7 @@ Proof. intros. unfold slice. rewrite firstn_length, skipn_length. lia. Qed.
 Theorem search_meets_spec : forall c, c_fn c = FSearch -> in_domain c = true -> m_call c = s_call c.
 Proof.
   intros c F Hd. assert (Hb := Hd). split_dom Hb D2 D1 D0 D. get_bounds Hb B1 B2.
-  rewrite F in D. cbn in D. apply andb_true_iff in D as [D G]. apply andb_true_iff in D as [Bb T].
+  rewrite F in D. cbn in D. apply andb_true_iff in D as [Bb T].
   unfold bounds2_ok in Bb. apply andb_true_iff in Bb as [C1 C2]. apply Nat.leb_le in C1, C2.
   unfold m_call, s_call, m_search, s_search. rewrite F.
   set (l1 := elems (c_seq c)) in *. set (l2 := elems (c_seq2 c)) in *.
@@ -45,10 +45,10 @@ Proof.
   - (* shared script for the two admissible shapes of the test *)
     destruct (Nat.eqb_spec (length w1) 0) as [Z1|Z1].
     + assert (k1 = []) as K1 by (destruct k1; [reflexivity|cbn in Lk1; lia]). rewrite K1 in *.
-      apply Nat.eqb_eq in G. rewrite G. rewrite Z1. replace (length w2 + 1 - 0)%nat with (S (length w2)) by lia.
+      rewrite Z1. replace (length w2 + 1 - 0)%nat with (S (length w2)) by lia.
       destruct (c_from_end c).
       * rewrite rev_seq_S. cbn. reflexivity.
-      * cbn. reflexivity.
+      * cbn. now rewrite Nat.add_0_r.
     + destruct k1 as [|x k1'] eqn:K1; [cbn in Lk1; lia|]. rewrite <- K1 in *.
       destruct (Nat.eqb_spec (length w2) 0) as [Z2|Z2]; cbn [orb].
       * replace (length w2 + 1 - length w1)%nat with 0%nat by lia. destruct (c_from_end c); reflexivity.
@@ -59,10 +59,10 @@ Proof.
            rewrite !Hfe. destruct (c_from_end c); reflexivity.
   - destruct (Nat.eqb_spec (length w1) 0) as [Z1|Z1].
     + assert (k1 = []) as K1 by (destruct k1; [reflexivity|cbn in Lk1; lia]). rewrite K1 in *.
-      apply Nat.eqb_eq in G. rewrite G. rewrite Z1. replace (length w2 + 1 - 0)%nat with (S (length w2)) by lia.
+      rewrite Z1. replace (length w2 + 1 - 0)%nat with (S (length w2)) by lia.
       destruct (c_from_end c).
       * rewrite rev_seq_S. cbn. reflexivity.
-      * cbn. reflexivity.
+      * cbn. now rewrite Nat.add_0_r.
     + destruct k1 as [|x k1'] eqn:K1; [cbn in Lk1; lia|]. rewrite <- K1 in *.
       destruct (Nat.eqb_spec (length w2) 0) as [Z2|Z2]; cbn [orb].
       * replace (length w2 + 1 - length w1)%nat with 0%nat by lia. destruct (c_from_end c); reflexivity.
